@@ -10,6 +10,7 @@ from hypothesis import strategies as st
 from .. import core, hyp, model, progs, reps, units
 from ..model import PREFIXES, SPELL, U
 from ..valrun import SAN_ENV
+from . import c07
 
 CFG = ("g++", "c++17")
 ASAN = ["-O1", "-g0", "-fsanitize=address,undefined", "-fno-sanitize-recover=all"]
@@ -108,14 +109,22 @@ class LabelParser:
             return U(u.dim, model.mmul(u.mag, mag) if mag is not None else u.mag)
         if self.peek("EQUIV{"):
             self.eat("EQUIV{")
-            us = [self.label()]
-            while self.peek(", "):
+            outer, us = self.unknown_scale, []
+            while True:
+                self.unknown_scale = False
+                u1 = self.label()
+                us.append((u1, self.unknown_scale))
+                if not self.peek(", "):
+                    break
                 self.eat(", ")
-                us.append(self.label())
             self.eat("}")
-            if any(x.key() != us[0].key() for x in us):
+            known = [x for x, unk in us if not unk]
+            # members whose scale factor is printed are compared exactly; members with an unprintable scale factor only by dimension
+            if any(x.key() != known[0].key() for x in known) or any(x.dim != us[0][0].dim for x, _ in us):
                 raise ParseError("EQUIV members denote different units in %r" % self.t)
-            return us[0]
+            self.unknown_scale = outer or not known
+            self.partial_unknown = getattr(self, "partial_unknown", False) or (bool(known) and len(known) < len(us))
+            return known[0] if known else us[0][0]
         best = None
         for lab in self.leaves:
             if lab != "[UNLABELED UNIT]" and self.peek(lab) and (best is None or len(lab) > len(best)):
@@ -134,8 +143,20 @@ def leaf_label(lf):
 
 @st.composite
 def case(draw):
-    kind = draw(st.sampled_from(["tree", "tree", "tree", "named", "named", "bigscale"]))
+    kind = draw(st.sampled_from(["tree", "tree", "tree", "named", "named", "bigscale", "common", "common"]))
     c = {"kind": kind}
+    if kind == "common":
+        # common_unit / common_point_unit of 2-3 same-dimension units (library, prefixed, anonymous rational scalings): the documented EQUIV{...} form,
+        # the single-base simplification [(1 / 6) ft], or one of the inputs
+        fam = draw(st.sampled_from(sorted(c07.FAMILIES)))
+        els = []
+        for _ in range(draw(st.integers(2, 3))):
+            e = draw(c07.element(fam, False))
+            if e["k"] == "named":
+                e["k"] = "anon"      # a label-less struct deriving from a scaled unit is the known-finding class F3
+            els.append(e)
+        c.update({"fam": fam, "els": els, "point": draw(st.booleans())})
+        return c
     if kind == "tree":
         c["t"] = draw(units.tree(max_leaves=6))
     elif kind == "named":
@@ -163,8 +184,48 @@ def f3_class(d):
     return bool(net) and t["k"] in ("leaf", "pre")
 
 
+ORIGIN_UNIT = {"Celsius": F(1, 100), "Fahrenheit": F(1, 180)}     # celsius.hh: centi(kelvins)(27315); fahrenheit.hh: centi(rankines)(45967), in kelvins
+
+
+def prepare_common(c):
+    els = c["els"]
+    mags = [c07.el_model(e) for e in els]
+    if c["point"]:
+        # the common point unit must also divide the displacement of every input's origin from the lowest origin; the library expresses each displacement in the
+        # common unit of the two origin quantities' units (documented in unit_of_measure.hh), so those units' magnitudes join the gcd
+        org = [(model.TABLE[e["n"]].origin, ORIGIN_UNIT.get(e["n"])) for e in els]
+        lo = min(org, key=lambda x: x[0])
+        for o, ou in org:
+            if o != lo[0]:
+                for m in (ou, lo[1]):
+                    if m is not None:
+                        mags.append(model.mag_of(m.numerator, m.denominator))
+    g = c07.gcd_mag(mags)
+    u = U(model.TABLE[els[0]["n"]].dim, g)
+    leaves = {}
+    for e in els:
+        base = units.strip(model.TABLE[e["n"]])
+        if e["k"] == "pre":
+            lab, uu = PREFIXES[e["p"]][2] + SPELL[e["n"]][4], U(base.dim, model.mmul(base.mag, model.prefix_mag(e["p"])))
+        else:
+            lab, uu = SPELL[e["n"]][4], base
+        if lab in leaves and leaves[lab].key() != uu.key():
+            return None
+        leaves[lab] = uu
+    expr = "au::%s(%s)" % ("common_point_unit" if c["point"] else "common_unit", ", ".join(c07.el_type(e, i) + "{}" for i, e in enumerate(els)))
+    # each member prints the ratio common/input (documented: "size in terms of each constituent unit"): a ratio of integers; printable iff both fit in uintmax_t
+    fits = True
+    for e in els:
+        shown = model.mmul(model.TABLE[e["n"]].mag, model.prefix_mag(e["p"])) if e["k"] == "pre" else model.TABLE[e["n"]].mag   # an anonymous scaling folds into the printed factor
+        r = model.mag_fraction(model.mmul(g, shown, -1))
+        fits = fits and r.numerator < 2 ** 64 and r.denominator < 2 ** 64
+    return "", expr, u, leaves, 0, (False if fits else True)
+
+
 def prepare(c, f3_known):
     """-> (defs_src, expr, model U, token table, flags) or None"""
+    if c["kind"] == "common":
+        return prepare_common(c)
     t = copy.deepcopy(c["t"])
     defs = copy.deepcopy(c.get("defs"))
     excluded = 0
@@ -197,10 +258,11 @@ def prepare(c, f3_known):
             add(leaf_label(lf), units.strip(units.evaluate(lf)))
     if amb:
         return None   # two different units of this case share one label text (e.g. milli-inch vs minute): the label cannot be judged by text
-    return units.render_defs(defs), units.render_unit(t), u, leaves, excluded
+    return units.render_defs(defs), units.render_unit(t), u, leaves, excluded, None
 
 
-def judge_label(text, u, leaves):
+def judge_label(text, u, leaves, unknown_ok=None):
+    """unknown_ok: None = not modelled; False = every scale factor that can appear is an integer or a ratio of integers <= 2^64-1, so the unlabeled marker is wrong"""
     p = LabelParser(text, leaves)
     try:
         got = p.label()
@@ -210,6 +272,8 @@ def judge_label(text, u, leaves):
         return "label does not follow the documented grammar: %s" % e
     if got.dim != u.dim:
         return "label %r denotes dimension %s, the unit's is %s" % (text, dict(got.dim), dict(u.dim))
+    if (p.unknown_scale or getattr(p, "partial_unknown", False)) and unknown_ok is False:
+        return "label %r uses (UNLABELED SCALE FACTOR) although every scale factor is a ratio of integers that fit in 64 bits" % text
     if p.unknown_scale:
         # legitimate only if some scale factor is not an integer/rational of uint64-representable parts
         return None
@@ -237,7 +301,7 @@ def replay_judge(params, rc, out, err):
     sz, ln_, text = int(f[2]), int(f[3]), "\t".join(f[4:])
     if sz != ln_ + 1:
         return True, "sizeof != strlen + 1"
-    why = judge_label(text, deser_u(params["u"]), {k: deser_u(v) for k, v in params["leaves"].items()})
+    why = judge_label(text, deser_u(params["u"]), {k: deser_u(v) for k, v in params["leaves"].items()}, params.get("unknown_ok"))
     return (why is not None), (why or "label %r denotes the unit" % text)
 
 
@@ -311,7 +375,7 @@ def run(ctx):
         def build(idxs):
             bodies, calls = [], []
             for j, k in enumerate(idxs):
-                defs_src, expr, u, leaves, _ = preps[k]
+                defs_src, expr, u, leaves, _, _uk = preps[k]
                 bodies.append(defs_src + '\nvoid run() { const auto &l = au::unit_label(%s); std::printf("AUVC18\\t%d\\t%%zu\\t%%zu\\t%%s\\n", sizeof(l), std::strlen(l), l); }' % (expr, base + k))
                 calls.append("  auv_case_%d::run();" % j)
             return progs.tu(PRELUDE, bodies, main=False) + "\n#line 1\nint main() {\n" + "\n".join(calls) + "\n  return 0;\n}\n"
@@ -337,7 +401,7 @@ def run(ctx):
                     sz, ln_, text = int(f[2]), int(f[3]), "\t".join(f[4:])
                     if sz != ln_ + 1:
                         res[k] = ("size", "sizeof(unit_label) = %d but strlen+1 = %d for %r" % (sz, ln_ + 1, text), build([k])); continue
-                    why = judge_label(text, preps[k][2], preps[k][3])
+                    why = judge_label(text, preps[k][2], preps[k][3], preps[k][5])
                     if why:
                         res[k] = ("denote", why, build([k])); continue
                 if o != o2 and not any(k in res for k in idxs):
@@ -365,7 +429,7 @@ def run(ctx):
                 ctx.count(3); ctx.bump("kind_" + c["kind"])
                 r = res.get(k)
                 js = json.dumps(c)
-                nt = js.count('"mul"') + js.count('"div"') + js.count('"pow"') >= 2 or '"scale"' in js or c["kind"] == "named"
+                nt = js.count('"mul"') + js.count('"div"') + js.count('"pow"') >= 2 or '"scale"' in js or c["kind"] in ("named", "common")
                 if r is None:
                     if nt:
                         ctx.nontrivial(c)
@@ -379,7 +443,7 @@ def run(ctx):
                     # stand-alone replay: the single-case program must print exactly a label whose denotation is right: encode as expected-stdout when possible
                     rep = {"mode": "syntax", "expect": "ok", "src": src, "cfg": list(CFG)} if kind == "compile" else {
                         "mode": "pyjudge", "judge": "auverif.props.c18:replay_judge", "src": src, "cfg": list(CFG), "flags": ASAN, "env": SAN_ENV,
-                        "params": {"u": ser_u(preps[k][2]), "leaves": {lab: ser_u(x) for lab, x in preps[k][3].items()}}}
+                        "params": {"u": ser_u(preps[k][2]), "leaves": {lab: ser_u(x) for lab, x in preps[k][3].items()}, "unknown_ok": preps[k][5]}}
                     out[k] = {"what": "C18 %s: %s  case=%s" % (kind, msg, js[:200]), "replay": rep}
         return out
 
